@@ -25,7 +25,7 @@ ASSUMPTIONS = [
     'tableschema.Field.cast_value (with the schema\'s missingValues) is the reference cast, as the statement says',
     'custom handlers do not mutate the row; transforms are pure',
 ]
-BUDGET = {'quick': dict(examples=2400, shards=8, seconds=70),
+BUDGET = {'quick': dict(examples=4800, shards=16, seconds=70),
           'thorough': dict(examples=200000, shards=16, seconds=1200)}
 
 TARGETS = [
